@@ -249,25 +249,18 @@ Nack(ids) ==
 
 RECURSIVE PickPos(_, _, _)
 PickPos(q, P, i) == IF i > Len(q) THEN <<>> ELSE (IF i \in P THEN <<q[i]>> ELSE <<>>) \o PickPos(q, P, i + 1)
-\* one StreamingPull request that acknowledges ids and nacks nids: one transaction (the
+\* one StreamingPull request that acknowledges ids and sets a zero deadline on nids (the
 \* deliveries the stream's sender hands out before and after it are Pull steps of their own)
 StreamAN(snm, ids, nids) ==
   LET X == SubsNamed(S, snm)
       A == RangeOf(ids)
-      delA == [d \in DOMAIN S.del |->
-                IF d \in A /\ S.del[d].done = -1 THEN [S.del[d] EXCEPT !.done = S.now] ELSE S.del[d]]
       I == RangeOf(nids)
-      live == {d \in I : delA[d].done = -1 /\ delA[d].exp > S.now}
-      D == {d \in live : DLable(S, d) /\ SubLive(S, d[2])}
-      e == [op |-> "StreamAN", sub |-> snm, ids |-> ids, nids |-> nids,
-            bo |-> [i \in DOMAIN nids |-> MCBackoff(nids[i][2], S.del[nids[i]].att)]]
-      del1 == [d \in DOMAIN S.del |->
-                IF d \in live \ D THEN [delA[d] EXCEPT !.at = S.now + MCBackoff(d[2], S.del[d].att)]
-                ELSE delA[d]]
-      del2 == DeadLetter(del1, D)
+      e == [op |-> "StreamAN", sub |-> snm, ids |-> ids, nids |-> nids]
   IN IF X = {} THEN Fail(e, "NotFound")
-     ELSE /\ Cardinality(DOMAIN del2) <= MaxDels
-          /\ OK(e, [S EXCEPT !.del = del2, !.nd = @ + Cardinality(D)])
+     ELSE OK(e, [S EXCEPT !.del = [d \in DOMAIN @ |->
+                   IF d \in A /\ @[d].done = -1 THEN [@[d] EXCEPT !.done = S.now]
+                   ELSE IF d \in I /\ @[d].done = -1 THEN [@[d] EXCEPT !.at = S.now]
+                   ELSE @[d]]])
 
 SeekApply(s, wantOut(_)) ==
   [d \in DOMAIN S.del |->
@@ -505,7 +498,6 @@ Out(X, t) == {d \in Dels(X) : OutDef(X, d, t)}
 RetiredM(d) ==
   \/ ev'.op \in {"Ack", "StreamAN"} /\ d \in RangeOf(ev'.ids)
   \/ ev'.op \in {"Pull", "Nack", "DLSweep"} /\ DLable(S, d)
-  \/ ev'.op = "StreamAN" /\ d \in RangeOf(ev'.nids) /\ DLable(S, d)
   \/ ev'.op \in {"DeleteSub", "ExpireSubs"} /\ ~SubLive(S', d[2])
   \/ ev'.op \in {"SeekTime", "SeekSnap"} /\ SubsNamed(S, ev'.sub) = {d[2]}
   \/ ev'.op = "Tick" /\ S.del[d].exp <= S'.now
